@@ -7,4 +7,7 @@ var verifHarnesses = map[string]func(){
 	"VerifC04PowerCap": VerifC04PowerCap,
 	"VerifC01Diff": VerifC01Diff,
 	"VerifC15ProviderSet": VerifC15ProviderSet,
+	"VerifC02NextValidators": VerifC02NextValidators,
+	"VerifC03MinPower": VerifC03MinPower,
+	"VerifC03OptOut": VerifC03OptOut,
 }
